@@ -105,6 +105,7 @@ pub fn run(e: &'static Engine) {
         }));
     }
     e.par(jobs);
+    super::common::standard_parts(e, 6400, 96000, check);
     e.put("cells_total", json!(40 * 4 * 9));
     e.set_exhaustive(false, "all 40 versions x 4 levels x 9 mask settings are enumerated and every coordinate of every symbol is compared; payloads are sampled");
 }
